@@ -120,7 +120,7 @@ def evaluate(plan, ctx):
     return Result(non_idem and any_one, ev)
 
 
-SUBCHECKS = [SubCheck("once", strategy, evaluate, quick=4000, thorough=60000)]
+SUBCHECKS = [SubCheck("once", strategy, evaluate, quick=6000, thorough=60000)]
 KNOWN = {}
 
 MANIFEST = {
